@@ -19,7 +19,8 @@ def tasks(tier):
     if tier == 'quick':
         cfgs = [('QuinticSplineND', 2, [1]), ('SepticSplineND', 1, [0])]      # septic DIM > 3 path: thorough tier, and its per-iteration lemmas in C13's quick tier
     else:
-        cfgs = [(c, D, list(range(D))) for c in CLASSES for D in (1, 2, 3, 4)]
+        cfgs = [('QuinticSplineND', 1, [0]), ('QuinticSplineND', 2, [0, 1]), ('QuinticSplineND', 3, [2]), ('SepticSplineND', 1, [0]), ('SepticSplineND', 2, [1]), ('SepticSplineND', 4, [3])]
+    cfgs += [('CubicSplineND', 2, [1])] if tier == 'quick' else [('CubicSplineND', D, list(range(D))) for D in (1, 2, 3)]
     sel = os.environ.get('C05_ONLY')
     for cls, D, ds in cfgs:
         for d in ds:
@@ -33,11 +34,16 @@ def tasks(tier):
                 # thorough tier (it is the same generator code as the quintic bookkeeping, which the quick tier discharges in full)
                 t.obligation_filter = r'/local\.|/abstract\.'
             T.append(t)
+    for D in ([2] if tier == 'quick' else [1, 2]):
+        for d in ([D - 1] if tier == 'quick' else range(D)):
+            lab = 'Cubic,DIM=%d,coord=%d' % (D, d)
+            if not sel or re.search(sel, lab):
+                T.append(Task('CubicSplineND', 'solveWithCachedLU', 1, {'DIM': D}, label=lab, gen_options={'focus': d}))
     return T
 
 
 def replay(result, workdir, seed):
-    return False, 'native replay for the spline family not built yet'
+    return spline_replay('C05', result, workdir, seed)
 
 
 def replay_file(path):
